@@ -340,6 +340,8 @@ def guards_range(term):
 
 
 def check(run, fx, tier, floors=True):
+    import ignored
+    ignored.run_for(run, fx, 'C05', floors)
     import speclayout
     speclayout.rule_layouts(run, fx, "T05-LAYOUT", ["layout", "kern"], floors)
     speclayout.rule_records(run, fx, "T05-REC", ['layout', 'kern'], floors)
